@@ -407,10 +407,11 @@ Section Heap.
     cbn [length] in Hlen.
     destruct (rev rinit) as [|top init'] eqn:Ei.
     - inversion H; subst. repeat split; [assumption|constructor|]. cbn in *. lia.
-    - pose proof (sift_down_length (S (length (top :: init'))) (top :: init') O last) as L1.
-      pose proof (sift_down_Forall (S (length (top :: init'))) (top :: init') O last Hlast Hi) as F1.
-      destruct (sift_down _ (top :: init') O last) as [v1 pos]. cbn [fst] in *.
-      inversion H; subst. inversion Hi; subst.
+    - set (fuel := S (length (top :: init'))) in H. clearbody fuel.
+      pose proof (sift_down_length fuel (top :: init') O last) as L1.
+      pose proof (sift_down_Forall fuel (top :: init') O last Hlast Hi) as F1.
+      destruct (sift_down fuel (top :: init') O last) as [v1 pos]. cbn [fst] in L1, F1.
+      injection H as Hs1 Hs2. subst s rest. inversion Hi as [|? ? Htop Hini]; subst.
       repeat split; [assumption| |].
       + apply sift_up_Forall; assumption.
       + rewrite sift_up_length, L1. lia.
@@ -589,7 +590,8 @@ Proof.
     apply hb_ack_wf; [|apply wadd_u32]. apply hb_flag_wf. apply hb_wf; assumption. }
   apply Inv_set_in_segs; [exact H1|].
   apply heap_push_Forall; [|apply H1].
-  split; tsimpl; [|assumption]. unfold wf_hdr; tsimpl. repeat split; assumption.
+  split; tsimpl; [|assumption]. unfold wf_hdr; tsimpl.
+  exact (conj Hsp (conj Hdp (conj Hseq (conj Hack (conj Hwnd Hurg))))).
 Qed.
 
 (* ------------------------------------------------------------------ *)
